@@ -220,6 +220,11 @@ def gen_case(rng, index, tier):
             op['faults'] = [rng.choice([dict(kind='KILL', proc=rng.randrange(1, op['nprocs']), ykind='ANY', n=rng.choice([1, 2, 3, 4, 6, 9, 14])),
                                         dict(kind='FORK_FAIL', proc=0, n=rng.randint(1, op['nprocs'] - 1)), dict(kind='ALLOC_FAIL', proc=0, n=rng.randint(1, 3))])]
         ops.insert(rng.choice([0, 0, rng.randrange(len(ops) + 1)]), op)
+    if rng.random() < 0.12:
+        # the same read-only view objects passed again after their base changed in place (for the integral argument set also as integer arrays)
+        k = nsets - 1
+        how = rng.choice(['roview', 'roview_int', 'roview_int'])
+        ops[rng.randrange(len(ops) + 1):0] = [dict(op='call', k=k, how=how), dict(op='mutate', k=k), dict(op='call', k=k, how=how)]
     ops.append(dict(op='call', k=rng.randrange(nsets), how='same'))
     return dict(kind='compiled', prog=prog, cfg=cfg, nsets=nsets, ops=ops, aseed=rng.randrange(1 << 30))
 
